@@ -142,8 +142,18 @@ func c03Apply(st kit.State, sites []c03Site, hdrSize map[string]int) kit.State {
 var c03Masks = []byte{0x01, 0x80, 0xff}
 
 // c03Sites enumerates the stratified single-site corruptions of a repository state.
-func c03Sites(a *repokit.Audit, st kit.State, rng *kit.RNG) []c03Site {
+func c03Sites(a *repokit.Audit, st kit.State, rng *kit.RNG, allMasks bool) []c03Site {
 	var out []c03Site
+	rot := 0
+	// masks returns the XOR masks for the next region: all three (thorough) or one, rotating, so
+	// that every mask is used in every region class across files (quick)
+	masks := func() []byte {
+		if allMasks {
+			return c03Masks
+		}
+		rot++
+		return c03Masks[rot%3 : rot%3+1]
+	}
 	for _, k := range st.Keys(0) {
 		if k.Type == backend.LockFile {
 			continue
@@ -194,9 +204,13 @@ func c03Sites(a *repokit.Audit, st kit.State, rng *kit.RNG) []c03Site {
 			sort.Ints(idxs)
 			for _, i := range idxs {
 				bl := blobs[i]
-				for _, m := range c03Masks {
+				for _, m := range masks() {
 					add("xor", within(bl.Off, bl.Off+16), m, pick[i]+"-nonce")
+				}
+				for _, m := range masks() {
 					add("xor", within(bl.Off+16, bl.Off+bl.Len-16), m, pick[i]+"-ciphertext")
+				}
+				for _, m := range masks() {
 					add("xor", within(bl.Off+bl.Len-16, bl.Off+bl.Len), m, pick[i]+"-mac")
 				}
 				// truncation at the blob boundaries ±1
@@ -211,11 +225,17 @@ func c03Sites(a *repokit.Audit, st kit.State, rng *kit.RNG) []c03Site {
 			}
 			hs := int(pi.HdrSize)
 			h0 := n - hs
-			for _, m := range c03Masks {
+			for _, m := range masks() {
 				add("xor", within(h0, h0+16), m, "header-nonce")
+			}
+			for _, m := range masks() {
 				add("xor", within(h0+16, n-4-16), m, "header-body")
+			}
+			for _, m := range masks() {
 				add("xor", within(n-4-16, n-4), m, "header-mac")
-				for i := 0; i < 4; i++ {
+			}
+			for i := 0; i < 4; i++ {
+				for _, m := range masks() {
 					add("xor", n-4+i, m, "header-length")
 				}
 			}
@@ -226,21 +246,39 @@ func c03Sites(a *repokit.Audit, st kit.State, rng *kit.RNG) []c03Site {
 		}
 		if k.Type == backend.KeyFile {
 			// plaintext JSON: offsets over the whole file
-			for _, m := range c03Masks {
-				for j := 0; j < 5; j++ {
+			for j := 0; j < 5; j++ {
+				for _, m := range masks() {
 					add("xor", within(n*j/5, n*(j+1)/5), m, fmt.Sprintf("json-%d/5", j))
 				}
 			}
 			add("trunc", n/2, 0, "half")
+			// the non-secret members are protected by nothing but the file-name hash
+			for _, member := range []string{"hostname", "username", "created"} {
+				if i := bytes.Index(b, []byte(`"`+member+`":"`)); i >= 0 {
+					v := i + len(member) + 4
+					if v < n && b[v] != '"' {
+						add("xor", v, 0x01, "json-"+member+"-value")
+					}
+					add("xor", i+2, 0x01, "json-"+member+"-name")
+				}
+			}
 			continue
 		}
 		// encrypted unpacked files: nonce | ciphertext | mac
 		if n >= 33 {
-			for _, m := range c03Masks {
+			for _, m := range masks() {
 				add("xor", within(0, 16), m, "nonce")
+			}
+			for _, m := range masks() {
 				add("xor", 16, m, "ciphertext-first")
+			}
+			for _, m := range masks() {
 				add("xor", within(17, n-17), m, "ciphertext")
+			}
+			for _, m := range masks() {
 				add("xor", n-17, m, "ciphertext-last")
+			}
+			for _, m := range masks() {
 				add("xor", within(n-16, n), m, "mac")
 			}
 			for _, p := range []int{1, 15, 16, 17, 31, 32, n / 2, n - 17, n - 16, n - 15} {
@@ -320,13 +358,10 @@ func TestVerifC03(t *testing.T) {
 	rec := kit.Start(t, "C03", "corrupt")
 	defer rec.Finish()
 	env := rec.Env
-	nRepos := env.Pick(6, 24)
+	nRepos := env.Pick(6, 16)
 	for i := 0; i < nRepos; i++ {
 		rng := rec.RNG("repo", i)
-		c := c03Repo{Idx: i, Version: uint(1 + i%2), Dup: i%3 == 2, Snaps: rng.Range(2, 3), Files: rng.Range(6, 14), Big: i%2 == 0 || rng.Chance(1, 3)}
-		if i%6 >= 3 {
-			c.Version = uint(2 - i%2)
-		}
+		c := c03Repo{Idx: i, Version: uint(1 + i%2), Dup: i%3 == 2, Snaps: rng.Range(2, 3), Files: rng.Range(6, 14), Big: i%3 == 0}
 		c.DupTree = c.Dup && rng.Chance(1, 3)
 		if rng.Bool() {
 			c.SmallIndex = uint(rng.Range(4, 20))
@@ -435,16 +470,21 @@ func c03Run(t *testing.T, rec *kit.Rec, c c03Repo, rng *kit.RNG) {
 		rec.Count("baseline_bytes_compared", r.bytes)
 	}
 
-	sites := c03Sites(b.audit, b.st, rec.RNG("sites", c.Idx))
+	sites := c03Sites(b.audit, b.st, rec.RNG("sites", c.Idx), env.Thorough())
 	var cases [][]c03Site
 	for _, s := range sites {
 		cases = append(cases, []c03Site{s})
 	}
 	nSingle := len(cases)
-	readEvery := 1
+	// the read paths (restore, dump, fuse) run on every readEvery-th single site (the site list is
+	// ordered by file and region, so the stride sweeps all classes), on all multi-site cases and on
+	// every 16th "every byte" site
+	readEvery := env.Pick(5, 3)
 	if env.Thorough() {
-		for _, s := range c03AllBytes(b.st, rec.RNG("allbytes", c.Idx)) {
-			cases = append(cases, []c03Site{s})
+		if c.Idx < 4 { // v1 big, v2, v1+duplicates, v2 big: every byte of every file <= 4 KiB
+			for _, s := range c03AllBytes(b.st, rec.RNG("allbytes", c.Idx)) {
+				cases = append(cases, []c03Site{s})
+			}
 		}
 		mr := rec.RNG("multi", c.Idx)
 		for k := 0; k < 150; k++ {
@@ -472,9 +512,6 @@ func c03Run(t *testing.T, rec *kit.Rec, c c03Repo, rng *kit.RNG) {
 		}
 		desc := map[string]any{"repo": c, "case": ci, "sites": cs}
 		st := c03Apply(b.st, cs, b.hdr)
-		if st.Digest() == b.st.Digest() {
-			continue // no effective change (cannot happen for enumerated sites)
-		}
 		after := repokit.NewAudit(e.key, st)
 		demand := c03Demand(cs, b.audit, after, b.manifests)
 		ce := e.onState(st, false)
@@ -494,8 +531,8 @@ func c03Run(t *testing.T, rec *kit.Rec, c c03Repo, rng *kit.RNG) {
 
 		// (b) restore / dump / fuse
 		isEveryByte := len(cs) == 1 && cs[0].Region == "everybyte"
-		doReads := !isEveryByte || (ci%8 == 0)
-		if ci < nSingle && ci%readEvery != 0 {
+		doReads := !isEveryByte || (ci%16 == 0)
+		if ci < nSingle && ci%readEvery != c.Idx%readEvery {
 			doReads = false
 		}
 		if doReads {
@@ -540,13 +577,13 @@ func c03Label(cs []c03Site) string {
 // read paths
 
 type c03ReadResult struct {
-	problems                    []string
-	restoreOK, restoreFailed    int
-	dumpOK, dumpFailed          int
+	problems                     []string
+	restoreOK, restoreFailed     int
+	dumpOK, dumpFailed           int
 	fuseFilesOK, fuseFilesFailed int
-	fuseFailed                  int
-	bytes                       int64
-	evals                       int
+	fuseFailed                   int
+	bytes                        int64
+	evals                        int
 }
 
 func (r *c03ReadResult) counts() map[string]int {
@@ -842,7 +879,7 @@ func c03MakeSource(dir string, c c03Repo, rng *kit.RNG) error {
 	}
 	if c.Big {
 		// multi-chunk file (chunker: min 512 KiB, avg 1 MiB)
-		if err := os.WriteFile(filepath.Join(dir, "big"), rng.Bytes(rng.Range(2<<20, 3<<20)), 0o644); err != nil {
+		if err := os.WriteFile(filepath.Join(dir, "big"), rng.Bytes(rng.Range(1200<<10, 2<<20)), 0o644); err != nil {
 			return err
 		}
 	}
